@@ -247,6 +247,18 @@ class Parser:
             return ("for", pat, it, b), False
         if v in ("loop", "const", "static", "fn", "struct", "impl", "use", "continue"):
             raise Unparsed("statement `%s`" % v)
+        if v in ("if", "match", "unsafe", "{"):
+            # a block-like expression at the start of a statement IS the statement (Rust does not continue it with
+            # `(..)`, binary operators, ...); a following `.`/`?` would continue it: not supported
+            e = self.atom(False)
+            if self.peek() in (".", "?"):
+                raise Unparsed("method call on a block-like expression statement")
+            if self.peek() == ";":
+                self.eat(";")
+                return ("expr", e), False
+            if self.peek() == "}":
+                return e, True
+            return ("expr", e), False
         e = self.expr()
         blocklike = e[0] in ("if", "match", "block", "unsafe")
         nxt = self.peek()
@@ -493,7 +505,8 @@ class Parser:
                 if self.peek() in ("|", "if"):
                     raise Unparsed("or-pattern / match guard")
                 self.eat("=>")
-                body = self.expr()
+                # an arm whose body is a block ends at the closing brace (no `(..)` / operator continues it)
+                body = self.block() if self.peek() == "{" else self.expr()
                 if self.peek() == ",": self.eat(",")
                 arms.append((pat, body))
             self.eat("}")
@@ -560,12 +573,33 @@ FUNCS = [
      [("getU", 101), ("getU", 102), ("swapC", 103), ("swapC", 104)]),
     ("storePrioAt", STORE_RS, "get_priority_from_position", "store",
      [("getU", 105), ("unwrap", 106)]),
+    ("storeSwapRemove", STORE_RS, "swap_remove", "store",
+     [("swapRemoveC", 107), ("arith", 108), ("getU", 109), ("setU", 110), ("swapRemoveC", 111), ("getU", 112),
+      ("setU", 113)]),
+    ("storeRemove", STORE_RS, "remove", "store",
+     [("arith", 118), ("swapRemoveC", 119), ("swapRemoveC", 120), ("getU", 121), ("setU", 122), ("setU", 123),
+      ("getU", 124), ("setU", 125), ("setU", 126)]),
     ("pqHeapify", PQ_RS, "heapify", "pq", []),
     ("pqBubbleUp", PQ_RS, "bubble_up", "pq",
      [("unwrap", 204), ("arith", 291), ("getU", 105), ("unwrap", 106), ("setU", 202), ("setU", 203),
       ("setU", 205), ("setU", 206)]),
     ("pqUpHeapify", PQ_RS, "up_heapify", "pq", [("getU", 207)]),
     ("pqHeapBuild", PQ_RS, "heap_build", "pq", [("arith", 208)]),
+    ("dqHeapify", DQ_RS, "heapify", "dq", []),
+    ("dqHeapifyMin", DQ_RS, "heapify_min", "dq",
+     [("arith", 301), ("arith", 302), ("unwrap", 303), ("unwrap", 304), ("arith", 305)]),
+    ("dqHeapifyMax", DQ_RS, "heapify_max", "dq",
+     [("arith", 306), ("arith", 307), ("unwrap", 303), ("unwrap", 308), ("arith", 309)]),
+    ("dqBubbleUp", DQ_RS, "bubble_up", "dq",
+     [("unwrap", 310), ("arith", 391), ("getU", 105), ("unwrap", 106), ("setU", 312), ("setU", 313),
+      ("setU", 314), ("setU", 315), ("setU", 316), ("setU", 317)]),
+    ("dqBubbleUpMin", DQ_RS, "bubble_up_min", "dq",
+     [("arith", 392), ("arith", 393), ("arith", 394), ("getU", 105), ("unwrap", 106), ("setU", 321), ("setU", 322)]),
+    ("dqBubbleUpMax", DQ_RS, "bubble_up_max", "dq",
+     [("arith", 395), ("arith", 396), ("arith", 397), ("getU", 105), ("unwrap", 106), ("setU", 324), ("setU", 325)]),
+    ("dqUpHeapify", DQ_RS, "up_heapify", "dq", []),
+    ("dqHeapBuild", DQ_RS, "heap_build", "dq", [("arith", 326)]),
+    ("dqFindMax", DQ_RS, "find_max", "dq", [("unwrap", 398)]),
 ]
 # every constructor of `Src.FnId`, in the order of PQ/Model/Src.lean (functions not (yet) translated are `none`)
 ALL_FNIDS = ["storeSwap", "storePrioAt", "storeSwapRemove", "storeRemove",
@@ -581,6 +615,9 @@ QUEUE_CALLS = {"pq": {"heapify": "pqHeapify", "bubble_up": "pqBubbleUp", "up_hea
                       "find_max": "dqFindMax"}}
 STORE_CALLS = {"swap": "storeSwap", "swap_remove": "storeSwapRemove", "remove": "storeRemove"}
 # return kinds of the callable functions: N = usize/Position/Index, U = (), P = &P
+# associated functions taking `hole: &mut Hole` (called as `Self::f(map, &mut hole, priority)`): in the IR the hole is passed
+# as its two `usize` fields and the new `hole.position` is returned
+HOLE_FNS = {"dq": {"bubble_up_min": "dqBubbleUpMin", "bubble_up_max": "dqBubbleUpMax"}}
 RET_KIND = {"storeSwap": "U", "storePrioAt": "P", "pqHeapify": "U", "pqBubbleUp": "N", "pqUpHeapify": "U",
             "pqHeapBuild": "U", "dqHeapify": "U", "dqHeapifyMin": "U", "dqHeapifyMax": "U", "dqBubbleUp": "N",
             "dqUpHeapify": "U", "dqHeapBuild": "U"}
@@ -612,6 +649,7 @@ class Lower:
         self.scopes = [{}]
         self.loops = []                         # (name, cond, body)
         self.live_holes = []                    # by-value holes of the function's top scope
+        self.byref_hole = None                  # register of `hole.position` of a `&mut Hole` parameter
 
     # ---- bookkeeping
     def site(self, kind):
@@ -683,6 +721,8 @@ class Lower:
             b = self.lookup(e[1][0])
             if b and b[0] in ("N", "P"):
                 return b[0]
+            if b and b[0] == "mutref":
+                return "N"
             return None
         if self.is_mapprio(e) is not None:
             return "P"
@@ -701,6 +741,8 @@ class Lower:
                 b = self.lookup(e[1][0])
                 if b and b[0] == "N":
                     return ("var", b[1])
+                if b and b[0] == "mutref":          # reading through `let x = v.get_unchecked_mut(i)`
+                    return ("var", b[3])
             raise Unparsed("`%s` is not a usize variable in scope" % "::".join(e[1]))
         if t == "field":
             h = self.hole_of(e[1])
@@ -838,6 +880,9 @@ class Lower:
                 fields[fname] = ("N", v)
             else:
                 raise Unparsed("`Hole::new`: priority-valued field")
+        if fields.get("heap") != ("place", "HEAP") or fields.get("qp") != ("place", "QP") \
+                or fields.get("position", ("",))[0] != "N" or fields.get("map_position", ("",))[0] != "N":
+            raise Unparsed("`Hole::new`: not a hole over (heap, qp) with a position and a map position")
         return ("hole", fields), code
 
     def inline_hole_method(self, hole, name, args, want):
@@ -858,6 +903,108 @@ class Lower:
         finally:
             self.scopes = saved
 
+    # ---- recognised idioms
+    def minmax_idiom(self, e):
+        """`*[c1, ..].iter().map_while(|i| HEAP.get(i.0).map(|index| (i, index)))
+               .min_by_key(|(_, index)| MAP.get_index(index.0).map(|(_, priority)| priority).unwrap()).unwrap().0`
+        -> ('firstMinBy' | 'lastMaxBy', candidates); None if `e` does not start like the idiom"""
+        e = strip(e)
+        if not (e[0] == "field" and e[2] == "0"):
+            return None
+        u = strip(e[1])
+        if not (u[0] == "mcall" and u[2] == "unwrap" and not u[3]):
+            return None
+        mb = strip(u[1])
+        if not (mb[0] == "mcall" and mb[2] in ("min_by_key", "max_by_key") and len(mb[3]) == 1):
+            return None
+        mw = strip(mb[1])
+        if not (mw[0] == "mcall" and mw[2] == "map_while" and len(mw[3]) == 1):
+            return None
+        it = strip(mw[1])
+        if not (it[0] == "mcall" and it[2] == "iter" and not it[3] and strip(it[1])[0] == "array"):
+            return None
+        # from here on the shape is binding: anything unexpected is an error, not "some other expression"
+        c1, c2 = mw[3][0], mb[3][0]
+        ok1 = False
+        if c1[0] == "closure" and len(c1[1]) == 1 and c1[1][0][0] == "pid":
+            x = c1[1][0][1]
+            b = strip(c1[2])
+            if b[0] == "mcall" and b[2] == "map" and len(b[3]) == 1:
+                g, inner = strip(b[1]), b[3][0]
+                if g[0] == "mcall" and g[2] == "get" and len(g[3]) == 1 and self.place(g[1]) == "HEAP" \
+                        and strip(g[3][0]) == ("field", ("path", [x]), "0") \
+                        and inner[0] == "closure" and len(inner[1]) == 1 and inner[1][0][0] == "pid":
+                    y = inner[1][0][1]
+                    r = strip(inner[2])
+                    ok1 = (r[0] == "tuple" and len(r[1]) == 2 and strip(r[1][0]) == ("path", [x])
+                           and strip(r[1][1]) == ("path", [y]) and x != y)
+        if not ok1:
+            raise Unparsed("`map_while` closure is not `|i| heap.get(i.0).map(|index| (i, index))`")
+        ok2 = False
+        if c2[0] == "closure" and len(c2[1]) == 1 and c2[1][0][0] == "ptuple" and len(c2[1][0][1]) == 2 \
+                and c2[1][0][1][0][0] == "pwild" and c2[1][0][1][1][0] == "pid":
+            y = c2[1][0][1][1][1]
+            b = strip(c2[2])
+            if b[0] == "mcall" and b[2] == "unwrap" and not b[3]:
+                m = strip(b[1])
+                if m[0] == "mcall" and m[2] == "map" and len(m[3]) == 1:
+                    g, inner = strip(m[1]), m[3][0]
+                    if g[0] == "mcall" and g[2] == "get_index" and len(g[3]) == 1 and self.place(g[1]) == "MAP" \
+                            and strip(g[3][0]) == ("field", ("path", [y]), "0") and inner[0] == "closure" \
+                            and len(inner[1]) == 1 and inner[1][0][0] == "ptuple" and len(inner[1][0][1]) == 2 \
+                            and inner[1][0][1][0][0] == "pwild" and inner[1][0][1][1][0] == "pid":
+                        ok2 = strip(inner[2]) == ("path", [inner[1][0][1][1][1]])
+        if not ok2:
+            raise Unparsed("key closure is not `|(_, index)| map.get_index(index.0).map(|(_, priority)| priority).unwrap()`")
+        cands = [self.n(c) for c in strip(it[1])[1]]
+        if not all(self.pure_n(c) for c in cands):
+            raise Unparsed("candidate positions can fault")
+        return ("firstMinBy" if mb[2] == "min_by_key" else "lastMaxBy"), cands
+
+    def maxpos_idiom(self, e):
+        """`*[p1, ..].iter().max_by_key(|i| unsafe { self.store.get_priority_from_position(**i) }).unwrap()` -> candidates"""
+        u = strip(e)
+        if not (u[0] == "mcall" and u[2] == "unwrap" and not u[3]):
+            return None
+        mb = strip(u[1])
+        if not (mb[0] == "mcall" and mb[2] == "max_by_key" and len(mb[3]) == 1):
+            return None
+        it = strip(mb[1])
+        if not (it[0] == "mcall" and it[2] == "iter" and not it[3] and strip(it[1])[0] == "array"):
+            return None
+        c = mb[3][0]
+        ok = False
+        if c[0] == "closure" and len(c[1]) == 1 and c[1][0][0] == "pid":
+            x = c[1][0][1]
+            b = strip(c[2])
+            ok = (b[0] == "mcall" and b[2] == "get_priority_from_position" and len(b[3]) == 1
+                  and self.place(b[1]) == "STORE" and strip(b[3][0]) == ("path", [x]))
+        if not ok:
+            raise Unparsed("key closure is not `|i| self.store.get_priority_from_position(**i)`")
+        cands = [self.n(a) for a in strip(it[1])[1]]
+        if not cands or not all(self.pure_n(a) for a in cands):
+            raise Unparsed("candidate positions empty or can fault")
+        return cands
+
+    def hole_call(self, e):
+        """`Self::bubble_up_min(map, &mut hole, priority)` -> IR statement"""
+        e = strip(e)
+        if not (e[0] == "call" and e[1][0] == "path" and len(e[1][1]) == 2 and e[1][1][0] == "Self"):
+            return None
+        name = e[1][1][1]
+        fid = HOLE_FNS.get(self.owner, {}).get(name)
+        if fid is None:
+            raise Unparsed("call of `Self::%s`" % name)
+        args = e[2]
+        if len(args) != 3 or self.place(args[0]) != "MAP":
+            raise Unparsed("`Self::%s`: arguments are not `(map, &mut hole, priority)`" % name)
+        h = self.hole_of(args[1])
+        if h is None or h[1].get("heap") != ("place", "HEAP") or h[1].get("qp") != ("place", "QP"):
+            raise Unparsed("`Self::%s`: second argument is not a hole over (heap, qp)" % name)
+        pr = self.p(args[2])
+        pos, mp = h[1]["position"][1], h[1]["map_position"][1]
+        return [("callN", pos, fid, [("var", pos), ("var", mp)], [pr])]
+
     # ---- statements
     def block_stmts(self, blk, tail_ret):
         """lower a block; `tail_ret` says what to do with its tail expression: None = it is a statement of type (),
@@ -870,7 +1017,7 @@ class Lower:
                 out += self.stmt(s)
             if blk[2] is not None:
                 out += self.tail(blk[2], tail_ret)
-            elif tail_ret in ("N", "P"):
+            elif tail_ret in ("N", "P", "E", "R", "ON"):
                 if not (blk[1] and blk[1][-1][0] == "return"):
                     raise Unparsed("a value is expected at the end of the block")
             return out
@@ -879,7 +1026,7 @@ class Lower:
 
     def tail(self, e, tail_ret):
         e0 = strip(e) if e[0] in ("paren", "unsafe") else e
-        if e0[0] in ("if", "match", "block", "unsafe"):
+        if e0[0] in ("if", "iflet", "match", "block", "unsafe"):
             return self.stmt(("expr", e0), tail_ret)
         if tail_ret is None:
             return self.stmt(("expr", e))
@@ -897,7 +1044,109 @@ class Lower:
             if self.live_holes:
                 raise Unparsed("priority result with a live hole")
             return [("retP", self.p(e))]
+        if tail_ret == "ON":
+            t0 = strip(e)
+            if self.live_holes:
+                raise Unparsed("optional result with a live hole")
+            if t0 == ("path", ["None"]):
+                return [("retNone",)]
+            if t0[0] == "call" and t0[1] == ("path", ["Some"]) and len(t0[2]) == 1:
+                a = t0[2][0]
+                cands = self.maxpos_idiom(a[1]) if a[0] == "deref" else None
+                if cands is not None:
+                    v = self.fresh("max", "N")
+                    return [("lastMaxByPos", v, self.site("unwrap"), cands), ("retSomeN", ("var", v))]
+                return [("retSomeN", self.n(a))]
+            raise Unparsed("optional result that is neither `None` nor `Some(e)`")
+        if tail_ret == "E":
+            t0 = strip(e)
+            if t0[0] == "mcall" and t0[2] == "swap_remove_index" and len(t0[3]) == 1 and self.place(t0[1]) == "MAP" \
+                    and not self.live_holes:
+                return [("retMapSwapRemoveIndex", self.n(t0[3][0]))]
+            raise Unparsed("result expression that is not `self.map.swap_remove_index(e)`")
+        if tail_ret == "R":
+            return self.remove_full(strip(e))
         raise Unparsed("tail expression")
+
+    def remove_full(self, e):
+        """`self.map.swap_remove_full(key).map(|(i, item, priority)| { ...; (item, priority, res) })`"""
+        if not (e[0] == "mcall" and e[2] == "map" and len(e[3]) == 1 and e[3][0][0] == "closure"):
+            raise Unparsed("result expression that is not `self.map.swap_remove_full(k).map(|..| ..)`")
+        g, clo = strip(e[1]), e[3][0]
+        if not (g[0] == "mcall" and g[2] == "swap_remove_full" and len(g[3]) == 1 and self.place(g[1]) == "MAP"):
+            raise Unparsed("result expression that is not `self.map.swap_remove_full(k).map(|..| ..)`")
+        k = strip(g[3][0])
+        kb = self.lookup(k[1][0]) if k[0] == "path" and len(k[1]) == 1 else None
+        if not kb or kb[0] != "K":
+            raise Unparsed("`swap_remove_full` of something that is not the key parameter")
+        ps = clo[1]
+        if not (len(ps) == 1 and ps[0][0] == "ptuple" and len(ps[0][1]) == 3 and all(q[0] == "pid" for q in ps[0][1])):
+            raise Unparsed("closure of `swap_remove_full(..).map` is not `|(i, item, priority)|`")
+        iname, itname, prname = [q[1] for q in ps[0][1]]
+        body = clo[2]
+        if body[0] != "block" or body[2] is None:
+            raise Unparsed("closure body without a result")
+        res = strip(body[2])
+        if not (res[0] == "tuple" and len(res[1]) == 3 and strip(res[1][0]) == ("path", [itname])
+                and strip(res[1][1]) == ("path", [prname])):
+            raise Unparsed("closure result is not `(item, priority, pos)`")
+        # `item` and `priority` are NOT bound: any other use of them inside the closure is rejected
+        self.scopes.append({})
+        try:
+            vi = self.fresh(iname, "N")
+            self.bind(iname, ("N", vi))
+            self.scopes.append({})
+            try:
+                code = []
+                for st in body[1]:
+                    code += self.stmt(st)
+                r = self.n(res[1][2])
+                if not self.pure_n(r):
+                    raise Unparsed("closure result position can fault")
+            finally:
+                self.scopes.pop()
+        finally:
+            self.scopes.pop()
+        return [("removeFullThen", kb[1], vi, code, r)]
+
+    def match_stmt(self, e, tail_ret):
+        scrut, arms = strip(e[1]), e[2]
+        # match (b1, b2) { (true, true) => .., (true, false) => .., (false, true) => .., (false, false) => .. }
+        if scrut[0] == "tuple" and len(scrut[1]) == 2:
+            c1 = self.b(scrut[1][0]); c2 = self.b(scrut[1][1])
+            got = {}
+            for pat, body in arms:
+                if not (pat[0] == "ptuple" and len(pat[1]) == 2 and all(q[0] == "pbool" for q in pat[1])):
+                    raise Unparsed("arm of a match on a pair of booleans is not a pair of literals")
+                key = (pat[1][0][1], pat[1][1][1])
+                if key in got:
+                    raise Unparsed("repeated match arm")
+                got[key] = self.branch(body if body[0] in ("block", "if") else ("block", [], body), tail_ret)
+            if len(got) != 4:
+                raise Unparsed("match on a pair of booleans without all four arms")
+            return [("match2", c1, c2, got[(True, True)], got[(True, False)], got[(False, True)], got[(False, False)])]
+        # match n { 0 => .., 1 => .., _ => .. } on a fault-free usize
+        x = self.n(scrut)
+        if not self.pure_n(x):
+            raise Unparsed("match on a usize expression that can fault")
+        res, seen_default = None, False
+        chain = []
+        for pat, body in arms:
+            if seen_default:
+                raise Unparsed("match arm after `_`")
+            code = self.branch(body if body[0] in ("block", "if") else ("block", [], body), tail_ret)
+            if pat[0] == "plit":
+                chain.append((pat[1], code))
+            elif pat[0] == "pwild":
+                seen_default = True
+                res = code
+            else:
+                raise Unparsed("match arm pattern `%s`" % pat[0])
+        if not seen_default:
+            raise Unparsed("match on usize without `_` arm")
+        for lit, code in reversed(chain):
+            res = [("ite", ("eqN", x, ("lit", lit)), code, res)]
+        return res
 
     def branch(self, blk_or_if, tail_ret):
         if blk_or_if is None:
@@ -921,12 +1170,31 @@ class Lower:
                 raise Unparsed("a hole that is not declared at the top level of the function")
             self.live_holes.append(h)
             return code
+        mm = self.minmax_idiom(e)
+        if mm is not None:
+            sp = self.site("unwrap"); su = self.site("unwrap")
+            return [(mm[0], self.target(name, "N", declare), sp, su, mm[1])]
         # calls of translated functions that return a position
         if es[0] == "mcall" and self.place(es[1]) == "QUEUE" and es[2] in QUEUE_CALLS.get(self.owner, {}) \
                 and RET_KIND.get(QUEUE_CALLS[self.owner][es[2]]) == "N":
             args = [self.n(a) for a in es[3]]
             v = self.target(name, "N", declare)
             return [("callN", v, QUEUE_CALLS[self.owner][es[2]], args, [])]
+        if es[0] == "mcall" and es[2] == "swap_remove" and len(es[3]) == 1 and self.place(es[1]) in ("HEAP", "QP"):
+            a = self.n(es[3][0])
+            site = self.site("swapRemoveC")
+            v = self.target(name, "N", declare)
+            return [("heapSwapRemove" if self.place(es[1]) == "HEAP" else "qpSwapRemove", v, site, a)]
+        if declare and es[0] == "mcall" and es[2] == "get_unchecked_mut" and len(es[3]) == 1 \
+                and self.place(es[1]) in ("HEAP", "QP"):
+            # `let x = v.get_unchecked_mut(i);`: a `&mut` into the table; the access itself is the possible fault,
+            # `x.0` reads the element, `*x = e` overwrites it
+            pl = self.place(es[1])
+            a = self.n(es[3][0])
+            iv = self.fresh(name + "@index", "N")
+            vv = self.fresh(name, "N")
+            self.bind(name, ("mutref", pl, iv, vv))
+            return [("setN", iv, a), ("setN", vv, ("heapGetU" if pl == "HEAP" else "qpGetU", self.site("getU"), ("var", iv)))]
         k = self.kind(e)
         if k == "P":
             x = self.p(e)
@@ -992,6 +1260,14 @@ class Lower:
                         raise Unparsed("right operand of `*place = e` can fault")
                     i = self.n(m[3][0])
                     return [("heapSetU" if self.place(m[1]) == "HEAP" else "qpSetU", self.site("setU"), i, x)]
+                if m[0] == "path" and len(m[1]) == 1:
+                    b = self.lookup(m[1][0])
+                    if b and b[0] == "mutref":
+                        x = self.n(rhs)
+                        if not self.pure_n(x):
+                            raise Unparsed("right operand of `*place = e` can fault")
+                        return [("heapSetU" if b[1] == "HEAP" else "qpSetU", self.site("setU"), ("var", b[2]), x),
+                                ("setN", b[3], x)]
                 raise Unparsed("assignment through `*`")
             if l0[0] == "path" and len(l0[1]) == 1:
                 return self.set_var(l0[1][0], rhs, False)
@@ -1001,7 +1277,7 @@ class Lower:
                     return [("setN", h[1][l0[2]][1], self.n(rhs))]
             raise Unparsed("assignment target")
         if t == "return":
-            if self.live_holes:
+            if self.live_holes or self.byref_hole is not None:
                 raise Unparsed("`return` while a hole is live")
             if s[1] is None:
                 return [("ret",)]
@@ -1043,6 +1319,30 @@ class Lower:
                 if e[3] is None and tail_ret in ("N", "P"):
                     raise Unparsed("`if` without `else` as a value")
                 return [("ite", c, th, el)]
+            if e[0] == "iflet":
+                pat, scrut = e[1], strip(e[2])
+                if not (pat[0] == "pctor" and pat[1] == ["Some"] and len(pat[2]) == 1 and pat[2][0][0] == "pref"
+                        and pat[2][0][1][0] == "pid"):
+                    raise Unparsed("`if let` pattern is not `Some(&x)`")
+                if not (scrut[0] == "mcall" and scrut[2] == "get" and len(scrut[3]) == 1 and self.place(scrut[1]) == "HEAP"):
+                    raise Unparsed("`if let` scrutinee is not `heap.get(e)`")
+                a = self.n(scrut[3][0])
+                self.scopes.append({})
+                try:
+                    v = self.fresh(pat[2][0][1][1], "N")
+                    self.bind(pat[2][0][1][1], ("N", v))
+                    th = self.block_stmts(e[3], tail_ret)
+                finally:
+                    self.scopes.pop()
+                el = self.branch(e[4], tail_ret)
+                if e[4] is None and tail_ret is not None:
+                    raise Unparsed("`if let` without `else` as a value")
+                return [("ifHeapGet", v, a, th, el)]
+            if e[0] == "match":
+                return self.match_stmt(e, tail_ret)
+            hc = self.hole_call(e)
+            if hc is not None:
+                return hc
             e0 = strip(e)
             if e0[0] == "tuple" and not e0[1]:
                 return []
@@ -1057,6 +1357,11 @@ class Lower:
                 if p in ("HEAP", "QP") and name == "swap" and len(args) == 2:
                     a = self.n(args[0]); b = self.n(args[1])
                     return [("heapSwap" if p == "HEAP" else "qpSwap", self.site("swapC"), a, b)]
+                if p in ("HEAP", "QP") and name == "swap_remove" and len(args) == 1:
+                    a = self.n(args[0])
+                    site = self.site("swapRemoveC")
+                    v = self.fresh("_", "N")
+                    return [("heapSwapRemove" if p == "HEAP" else "qpSwapRemove", v, site, a)]
                 h = self.hole_of(recv)
                 if h is not None and name == "move_from":
                     return self.inline_hole_method(h, name, args, "stmt")
@@ -1074,6 +1379,12 @@ def ret_kind(rtoks):
         return "N"
     if txt == "-> & P":
         return "P"
+    if txt == "-> Option < Position >":
+        return "ON"
+    if txt == "-> Option < ( I , P ) >":
+        return "E"
+    if txt == "-> Option < ( I , P , Position ) >":
+        return "R"
     raise Unparsed("return type `%s`" % txt)
 
 
@@ -1086,6 +1397,17 @@ def param_binding(lw, name, ty):
     if ty == "& P":
         v = lw.fresh(name, "P")
         return ("P", v), ("p", v)
+    if ty == "& IndexMap < I , P , H >":
+        return ("place", "MAP"), None
+    if ty == "& mut Hole":
+        vp = lw.fresh(name + ".position", "N")
+        vm = lw.fresh(name + ".map_position", "N")
+        lw.byref_hole = vp
+        return ("hole", {"heap": ("place", "HEAP"), "qp": ("place", "QP"), "position": ("N", vp),
+                         "map_position": ("N", vm)}), ("nn", (vp, vm))
+    if ty == "& Q":                                  # a key that is looked up in the map
+        v = lw.fresh(name, "K")
+        return ("K", v), ("n", v)
     raise Unparsed("parameter `%s: %s`" % (name, ty))
 
 
@@ -1099,10 +1421,17 @@ def lower_function(fnid, file, rust, owner, sites, sources):
     for name, ty in params:
         b, reg = param_binding(lw, name, ty)
         lw.scopes[0][name] = b
-        if reg:
+        if reg and reg[0] == "nn":
+            nparams += list(reg[1])
+        elif reg:
             (nparams if reg[0] == "n" else pparams).append(reg[1])
     rk = ret_kind(rtoks)
     body = lw.block_stmts(parse_fn_body(btoks), rk)
+    if lw.byref_hole is not None:
+        # a `&mut Hole` parameter: the IR function returns the hole's final position
+        if rk is not None:
+            raise Unparsed("function with a `&mut Hole` parameter and a result")
+        body = body + [("retN", ("var", lw.byref_hole))]
     if lw.site_i != len(sites):
         raise Unparsed("fewer fault-carrying accesses (%d) than the site table of %s lists (%d)" % (lw.site_i, fnid, len(sites)))
     return {"nparams": nparams, "pparams": pparams, "body": body, "loops": lw.loops, "vars": lw.vars}
@@ -1177,6 +1506,19 @@ def pstmt(s, ind):
     if t in ("heapSetU", "qpSetU", "heapSwap", "qpSwap"):
         return pad + "(.%s %d %s %s)" % (t, s[1], pn(s[2]), pn(s[3]))
     if t == "sizeDec": return pad + "(.sizeDec %d)" % s[1]
+    if t in ("firstMinBy", "lastMaxBy"): return pad + "(.%s %d %d %d %s)" % (t, s[1], s[2], s[3], pns(s[4]))
+    if t == "lastMaxByPos": return pad + "(.lastMaxByPos %d %d %s)" % (s[1], s[2], pns(s[3]))
+    if t == "retSomeN": return pad + "(.retSomeN %s)" % pn(s[1])
+    if t == "retNone": return pad + ".retNone"
+    if t == "match2":
+        return pad + "(.match2 %s %s\n%s\n%s\n%s\n%s)" % (pb(s[1]), pb(s[2]), pstmts(s[3], ind + 2), pstmts(s[4], ind + 2),
+                                                          pstmts(s[5], ind + 2), pstmts(s[6], ind + 2))
+    if t == "ifHeapGet":
+        return pad + "(.ifHeapGet %d %s\n%s\n%s)" % (s[1], pn(s[2]), pstmts(s[3], ind + 2), pstmts(s[4], ind + 2))
+    if t in ("heapSwapRemove", "qpSwapRemove"): return pad + "(.%s %d %d %s)" % (t, s[1], s[2], pn(s[3]))
+    if t == "retMapSwapRemoveIndex": return pad + "(.retMapSwapRemoveIndex %s)" % pn(s[1])
+    if t == "removeFullThen":
+        return pad + "(.removeFullThen %d %d\n%s\n%s  %s)" % (s[1], s[2], pstmts(s[3], ind + 2), pad, pn(s[4]))
     raise AssertionError(t)
 
 
@@ -1192,7 +1534,7 @@ def emit(results, unparsed):
     for fnid in ALL_FNIDS:
         if fnid in results:
             r = results[fnid]
-            names = ", ".join("%d=%s%s" % (i, nm, "" if k == "N" else ":P") for i, (nm, k) in enumerate(r["vars"]))
+            names = ", ".join("%d=%s%s" % (i, nm, {"N": "", "P": ":P", "K": ":key"}[k]) for i, (nm, k) in enumerate(r["vars"]))
             L.append("/-! `%s`: registers %s -/" % (fnid, names or "(none)"))
             for name, c, body in r["loops"]:
                 L.append("def %s_cond : BExpr :=\n  %s" % (name, pb(c)))
